@@ -587,7 +587,62 @@ def constructions_model_stream(ctx, n):
             ctx.disagree(f"C10:model:{op[2:]}", desc, a[1], r[1:3] if r[0] != "ok" else np.asarray(r[1].array).tolist(), replay=[desc])
 
 
+def perpendicular_in_plane_stream(ctx, n, prefix="C10"):
+    """Line.perpendicular(points, plane=planes) in space with the rarely used keyword: a single line (or a collection) against a point
+    collection of which some points lie on the line and some do not, each with its own plane through the line — position by position
+    what the single calls return, and each result passes through its point, lies in its plane and is perpendicular to the line"""
+    import geometer as g
+    rng = ctx.rng
+    for k in range(n):
+        a = np.array([rng.randint(-3, 3) for _ in range(3)], dtype=float)
+        d = np.array([rng.randint(-2, 2) for _ in range(3)], dtype=float)
+        if not d.any():
+            continue
+        L = g.Line(g.Point(*a), g.Point(*(a + d)))
+        m = rng.randint(2, 4)
+        pts, planes = [], []
+        on_flags = [rng.random() < 0.5 for _ in range(m)]
+        if k % 2 == 0:
+            on_flags[0], on_flags[-1] = True, False        # mixed: some but not all points on the line
+        for on in on_flags:
+            while True:
+                w = np.array([rng.randint(-3, 3) for _ in range(3)], dtype=float)
+                if np.linalg.matrix_rank(np.stack([d, w])) == 2:
+                    break
+            t = float(rng.randint(-2, 3))
+            p = a + t * d if on else a + t * d + w
+            pts.append(g.Point(*p))
+            planes.append(g.Plane(g.Point(*a), g.Point(*(a + d)), g.Point(*(a + w))))
+        desc = f"perpendicular(points, plane=planes) line through {a.tolist()} direction {d.tolist()} points {[np.asarray(q.array)[:3].tolist() for q in pts]} on-line {on_flags}"
+        ctx.case(desc)
+        ctx.count("perpendicular-in-plane:" + ("mixed" if len(set(on_flags)) == 2 else "uniform"))
+        singles = [call_impl(lambda q=q, e=e: L.perpendicular(q, plane=e)) for q, e in zip(pts, planes)]
+        if any(x[0] != "ok" for x in singles):
+            continue
+        PC, EC = g.PointCollection(pts), g.PlaneCollection(planes)
+        for label, f in (("single-line", lambda: L.perpendicular(PC, plane=EC)),
+                         ("line-collection", lambda: g.LineCollection([L] * m).perpendicular(PC, plane=EC))):
+            r = call_impl(f)
+            ok = r[0] == "ok" and np.asarray(r[1].array).shape == (m, 4, 4)
+            if ok:
+                ok = all(proj_close_nn(np.asarray(singles[i][1].array), np.asarray(r[1].array)[i], 1e-7) for i in range(m))
+            if not ok:
+                ctx.disagree(f"{prefix}:perpendicular-in-plane:{label}", desc, "the perpendiculars of the single calls",
+                             r[1:3] if r[0] != "ok" else np.round(np.asarray(r[1].array), 5).tolist(), replay=[desc])
+                break
+        # the single results meet the definition
+        for i, x in enumerate(singles):
+            perp = x[1]
+            dirp = np.asarray(perp.direction.array, dtype=complex)[:3]
+            good = bool(perp.contains(pts[i])) and bool(planes[i].contains(perp)) and abs(np.dot(dirp, d)) <= 1e-7 * np.linalg.norm(dirp) * np.linalg.norm(d)
+            if not good:
+                ctx.disagree(f"{prefix}:perpendicular-in-plane:definition", desc + f" position {i}", "through the point, in the plane, perpendicular to the line",
+                             np.round(np.asarray(perp.array), 5).tolist(), replay=[desc])
+                break
+
+
 def correspondence(ctx):
+    perpendicular_in_plane_stream(ctx, ctx.budget(30, 300))
     constructions_model_stream(ctx, ctx.budget(120, 1500))
     import colllib
     colllib.run(ctx, ctx.budget(40, 400), prefix="C10", only={"angle_bisectors3"}, patterns=["k", "1", "k1", "1k"])
